@@ -178,7 +178,7 @@ func parse(b []byte, depth int) (Value, int, error) {
 			return Value{}, 0, errors.New("bad bulk len")
 		}
 		rest := b[1+n:]
-		if int64(len(rest)) < x+2 {
+		if x > int64(len(rest)) || int64(len(rest)) < x+2 {
 			return Value{}, 0, ErrIncomplete
 		}
 		if rest[x] != '\r' || rest[x+1] != '\n' {
